@@ -12,7 +12,10 @@ Inductive kind : Type :=
 | KSer      (* derives (at any depth) from SubclassJSONSerializer *)
 | KReg      (* third-party type with a (de)serialiser pair in JSONSerializableTypeRegistry *)
 | KPlain.   (* neither: outside the statement's grammar *)
-Record cls : Type := { c_mod : str; c_qual : list str; c_kind : kind; c_id : Z }.
+(* c_base: the builtin type the class ALSO derives from, if any (IntEnum and numpy.float64 derive from int / float, a
+   namedtuple from tuple, `class Trajectory(list, SubclassJSONSerializer)` from list): such an object is an instance of a
+   builtin type as well, which the dispatch of to_json looks at *)
+Record cls : Type := { c_mod : str; c_qual : list str; c_kind : kind; c_id : Z; c_base : option pytype }.
 
 (* the statement's values; P = what a user's object carries besides child values *)
 Inductive value (P : Type) : Type :=
